@@ -100,7 +100,7 @@ fn flat_game(dump: &Dump<String, String>, t: &Tree, meth: &str, k: usize) -> Val
     weights(t, &ix, &mut cw);
     let nacts: Vec<Vec<usize>> = (0..2).map(|p| dump.infos[p].iter().map(|i| i.actions.len()).collect()).collect();
     json!({"e": "game", "method": meth, "k": k, "target": 3 * k, "nodes": dump.nodes.len(), "kids": kids, "kind": kind,
-        "pl": pl, "info": info, "cw": cw, "nacts": nacts})
+        "pl": pl, "info": info, "cw": cw, "nacts": nacts, "decl": cfr::declared(t, dump)})
 }
 
 /// probabilities as exact rationals [n, d] where a small denominator reproduces the float, else as
@@ -136,7 +136,8 @@ fn observed(t: &Tree, meth: &str, preset: &str, k: usize, iters: u64, inject: Op
     let (meth, preset) = (meth.to_string(), preset.to_string());
     let inject = inject.map(|(s, f)| (s.clone(), f));
     util::catch(move || {
-        let game = tree::build(&t2).map_err(|e| format!("{e:?}"))?;
+        // the library sees the chance nodes WITHOUT the labels the harness invented for its own book-keeping
+        let game = tree::build(&cfr::unlabelled(&t2)).map_err(|e| format!("{e:?}"))?;
         let dump = game.verif_dump();
         verif::reset();
         verif::set_record(true, true);
@@ -254,7 +255,7 @@ pub fn record(args: &Args) {
     // ---- structural runs: every method, 1 and several threads, live randomness
     let mut games: Vec<(String, Tree)> = zoo::all()
         .into_iter()
-        .filter(|(name, _)| ["kuhn", "shared8", "rare", "lonely", "pennies"].contains(&name.as_str()))
+        .filter(|(name, _)| ["kuhn", "shared8", "rare", "lonely", "pennies", "coins"].contains(&name.as_str()))
         .collect();
     let mut rng = Rng::new(seed ^ 0xc10);
     for id in 0..n {
